@@ -18,7 +18,10 @@ Targets == {[v4 |-> s4, v6 |-> s6] : s4 \in SUBSET A4, s6 \in SUBSET A6}
 Status == {[marked |-> FALSE, v4 |-> {}, v6 |-> {}]} \cup {[marked |-> TRUE, v4 |-> t.v4, v6 |-> t.v6] : t \in Targets}
 (* C01/C02: every history of length Depth of one policy (policies are independent; the builder   *)
 (* packs many histories into one router)                                                         *)
-Histories == [1..Depth -> Status]
+(* (histories of length 3 and more over a smaller set of targets: 129^3 is more than TLC will enumerate) *)
+StatusS == {[marked |-> FALSE, v4 |-> {}, v6 |-> {}]}
+           \cup {[marked |-> TRUE, v4 |-> s4, v6 |-> s6] : s4 \in SUBSET {"a", "b", "r9", "h11"}, s6 \in SUBSET {"c"}}
+Histories == IF Depth <= 2 THEN [1..Depth -> Status] ELSE [1..Depth -> StatusS]
 
 (* C04: N pipelined loads, a fault of some kind at some request kind (index only for loads) *)
 Kinds == {"open", "get-running", "get-candidate", "load", "commit", "close-db", "close-session"}
